@@ -596,6 +596,7 @@ type histOpts struct {
 	withRefs   bool
 	withDup    bool // sometimes attempt a duplicate label
 	straight   bool // C07: no transfers, no PLP/RTI/STP, no labels
+	rebase     bool // C19 only: SetBase may be called again in mid-stream
 }
 
 var safeAlphabet = "abcdefghijklmnopqrstuvwxyzABCDEFGHIJKLMNOPQRSTUVWXYZ123456789 _-+*=.,:()[]<>!?#%&/"
@@ -773,6 +774,8 @@ func genHistory(g *vf.Rng, o histOpts) (calls []hcall, base string, dist map[str
 			h.add(hcall{Op: "comment", S: genText(g, n)})
 		case k == 10 && !o.straight:
 			h.add(hcall{Op: "label", S: h.newLabel()})
+		case k == 18 && o.rebase:
+			h.add(hcall{Op: "setbase", Arg: uint32(g.Intn(256))<<16 | uint32(g.Intn(0xF000))})
 		case k == 11 && o.straight:
 			h.add(hcall{Op: []string{"assumerep", "assumesep"}[g.Intn(2)], Arg: 0}) // refined by C07 itself
 		case k >= 12 && k <= 16 && o.withRefs:
